@@ -15,8 +15,16 @@ void skinMesh(NifFile& nif, NiShape* shape, int nbones, uint64_t seed, int maxIn
 	Rng rng(seed);
 	nif.CreateSkinning(shape);
 	std::vector<int> boneIds;
+	// odd seeds: a bone hierarchy (each bone below an earlier one); even seeds: all bones directly below the root
+	std::vector<NiNode*> nodes;
 	for (int b = 0; b < nbones; ++b) {
-		auto node = nif.AddNode("Bone" + std::to_string(b), MatTransform(), nif.GetRootNode());
+		NiNode* parent = nif.GetRootNode();
+		if ((seed & 1) && b > 0)
+			parent = nodes[static_cast<size_t>(rng.below(static_cast<uint32_t>(b)))];
+		MatTransform t;
+		t.translation = Vector3(float(b), float(b % 3), 1.0f);
+		auto node = nif.AddNode("Bone" + std::to_string(b), t, parent);
+		nodes.push_back(node);
 		boneIds.push_back(static_cast<int>(nif.GetBlockID(node)));
 	}
 	nif.SetShapeBoneIDList(shape, boneIds);
